@@ -746,6 +746,73 @@ pub fn run_c11(ctx: &mut Ctx, _known: &Known) {
             }
         }
     }
+    // (1g) an INDEX into a collection with one possible order (one member), and keys that are special
+    //      in YAML TEXT but ordinary in data (`<<`, `~`, `null`, `true`, `1`): the same in every
+    //      representation
+    {
+        for (body, cond) in [("tags[0]: admin", "A"), ("tags[0]: admin", "not A"), ("tags[1]: admin", "not A"), ("tags[0]: 'a*'", "A"), ("all(tags[0]): [admin]", "A"), ("str(tags[0]): admin", "A"), ("n[0]: 7", "A"), ("int(n[0]): '>6'", "A")] {
+            let text = format!("detection:\n  A:\n    {}\n  condition: {}\ntrue_positives: []\ntrue_negatives: []\n", body, cond);
+            let rule = match Rule::from_str(&text) { Ok(r) => r, Err(_) => continue };
+            for mask in [0u64, 15] {
+                let rl = if mask == 0 { rule.clone() } else { rule.clone().optimise(implside::opts(mask)) };
+                ctx.evaluations += 1;
+                ctx.nontrivial.insert(hash_str(&format!("idx{}{}{}", body, cond, mask)));
+                let ym: Mapping = serde_yaml::from_str("{tags: [admin], n: [7]}").unwrap();
+                let js = serde_json::json!({ "tags": ["admin"], "n": [7] });
+                #[derive(Clone)]
+                enum V { S(Vec<String>), H(HashSet<String>), N(Vec<u64>), HN(HashSet<u64>) }
+                impl AsValue for V {
+                    fn as_value(&self) -> Value<'_> {
+                        match self { V::S(v) => v.as_value(), V::H(h) => h.as_value(), V::N(v) => v.as_value(), V::HN(h) => h.as_value() }
+                    }
+                }
+                let mut hv: HashMap<String, V> = HashMap::new();
+                hv.insert("tags".into(), V::S(vec!["admin".into()]));
+                hv.insert("n".into(), V::N(vec![7]));
+                let mut hs: HashMap<String, V> = HashMap::new();
+                hs.insert("tags".into(), V::H(["admin".to_string()].into_iter().collect()));
+                hs.insert("n".into(), V::HN([7u64].into_iter().collect()));
+                let my = MyObj(vec![("tags".to_string(), MyVal::Arr(vec![MyVal::Str("admin".into())])), ("n".to_string(), MyVal::Arr(vec![MyVal::UInt(7)]))]);
+                let reps = [("yaml mapping", rl.matches(&ym)), ("serde_json value", rl.matches(&js)), ("HashMap of Vec", rl.matches(&hv)), ("HashMap of one-member HashSet", rl.matches(&hs)), ("hand-written Object", rl.matches(&my))];
+                if reps.iter().any(|(_, b)| *b != reps[0].1) {
+                    let dummy = ctx.exchange("tok s:");
+                    ctx.violation("oracle", &format!("rule `{}` ({}, mask {}) on one-member collections: verdicts differ between representations: {:?}", body, cond, mask, reps), &dummy, &text, true);
+                }
+            }
+        }
+        for special in ["<<", "~", "null", "true", "1", "*", "&a", "!t", "? ", "- ", "#", "%"] {
+            for (body, cond) in [("user: root", "A"), ("user: root", "not A"), ("host: web01", "A"), ("inner.user: root", "A"), ("inner:\n      user: root", "A")] {
+                let text = format!("detection:\n  A:\n    {}\n  condition: {}\ntrue_positives: []\ntrue_negatives: []\n", body, cond);
+                let rule = match Rule::from_str(&text) { Ok(r) => r, Err(_) => continue };
+                ctx.evaluations += 1;
+                ctx.nontrivial.insert(hash_str(&format!("special{}{}{}", special, body, cond)));
+                // {host: web01, <special>: {user: root}, inner: {<special>: {user: root}, x: 1}, list: [{<special>: {user: root}}]}
+                let mut under = Mapping::new();
+                under.insert(ys("user"), ys("root"));
+                let mut inner = Mapping::new();
+                inner.insert(ys(special), Yaml::Mapping(under.clone()));
+                inner.insert(ys("x"), Yaml::Number(1u64.into()));
+                let mut ym = Mapping::new();
+                ym.insert(ys("host"), ys("web01"));
+                ym.insert(ys(special), if special == "~" { Yaml::Sequence(vec![Yaml::Mapping(under.clone())]) } else { Yaml::Mapping(under.clone()) });
+                ym.insert(ys("inner"), Yaml::Mapping(inner));
+                let js = match json_of_yaml(&Yaml::Mapping(ym.clone())) { Some(j) => j, None => continue };
+                let hm: HashMap<String, serde_json::Value> = js.as_object().map(|o| o.iter().map(|(k, v)| (k.clone(), v.clone())).collect()).unwrap_or_default();
+                let my = match my_of_yaml(&Yaml::Mapping(ym.clone())) { MyVal::Obj(o) => o, _ => continue };
+                let via_text: Option<Mapping> = serde_yaml::to_string(&ym).ok().and_then(|t| serde_yaml::from_str(&t).ok());
+                let mut reps = vec![("yaml mapping", rule.matches(&ym)), ("serde_json value", rule.matches(&js)), ("HashMap<String, serde_json::Value>", rule.matches(&hm)), ("hand-written Object", rule.matches(&my))];
+                if let Some(vt) = &via_text {
+                    if *vt == ym {
+                        reps.push(("yaml mapping read back from its text", rule.matches(vt)));
+                    }
+                }
+                if reps.iter().any(|(_, b)| *b != reps[0].1) {
+                    let dummy = ctx.exchange("tok s:");
+                    ctx.violation("oracle", &format!("rule `{}` ({}) on a document with a key named {:?}: verdicts differ between representations: {:?}", body.replace('\n', " "), cond, special, reps), &dummy, &text, true);
+                }
+            }
+        }
+    }
     // (2) the same logical document in four representations gives the same verdicts
     let n = budget(ctx, 1200, 30000);
     for i in 0..n {
@@ -1339,6 +1406,100 @@ fn c12_passes_and_races(ctx: &mut Ctx) {
             ctx.violation("oracle", &format!("Rule::optimise (all switches) on a rule with {} regexes does not print what coalesce, shake, rewrite, matrix applied one after the other print: {} vs {}", big, trunc(&format!("{}", whole.detection.expression), 200), trunc(&format!("{}", by_hand), 200)), &dummy("compose"), &trunc(&text, 2000), true);
         }
     }
+    // repeated optimise() of rules whose optimisation has much to build (hundreds of needles over
+    // several fields, blocks of equal size so that no sort decides their order): one print, from
+    // this thread and from others
+    for (fields, per, mode) in [(6usize, 60usize, 0usize), (6, 60, 1), (6, 60, 2), (3, 50, 0), (2, 200, 1), (8, 17, 0), (4, 90, 2)] {
+        let mut text = String::from("detection:\n  A:\n");
+        for fi in 0..fields {
+            text.push_str(&format!("  - fld{}:\n", fi));
+            for k in 0..per {
+                let kind = match mode { 0 => 0, 1 => k % 3, _ => k % 4 };
+                let pat = match kind { 0 => format!("'*f{}-needle-{:04}-padding-padding-padding*'", fi, k), 1 => format!("'f{}-start-{:04}-padding-padding-padding*'", fi, k), 2 => format!("'*f{}-end-{:04}-padding-padding-padding'", fi, k), _ => format!("'i*F{}-ci-{:04}-padding-padding*'", fi, k) };
+                text.push_str(&format!("    - {}\n", pat));
+            }
+        }
+        text.push_str("  B:\n    other: x\n  condition: A or B\ntrue_positives: []\ntrue_negatives: []\n");
+        let rule = match Rule::from_str(&text) { Ok(r) => r, Err(_) => continue };
+        ctx.evaluations += 1;
+        ctx.nontrivial.insert(hash_str(&format!("bigopt{}x{}m{}", fields, per, mode)));
+        for mask in [15u64, 2, 3] {
+            let reference = format!("{}", rule.clone().optimise(implside::opts(mask)).detection.expression);
+            let mut differs: Option<String> = None;
+            for _ in 0..24 {
+                let p = format!("{}", rule.clone().optimise(implside::opts(mask)).detection.expression);
+                if p != reference && differs.is_none() { differs = Some(p); }
+            }
+            let handles: Vec<_> = (0..8).map(|_| { let r2 = rule.clone(); std::thread::spawn(move || format!("{}", r2.optimise(implside::opts(mask)).detection.expression)) }).collect();
+            for h in handles {
+                if let Ok(p) = h.join() {
+                    if p != reference && differs.is_none() { differs = Some(p); }
+                }
+            }
+            if let Some(p) = differs {
+                ctx.violation("oracle", &format!("optimise() (mask {}) of one rule ({} fields x {} needles) printed two different expressions: {} vs {}", mask, fields, per, first_diff(&reference, &p), trunc(&p, 120)), &dummy("reprint"), &trunc(&text, 1500), true);
+                break;
+            }
+        }
+    }
+    // loading does not depend on what FAILED to load before on the same thread: 400 failed loads
+    // (errors at several depths of the identifier block, in the condition, in the YAML), then texts
+    // that load — compared with the same texts loaded on a fresh thread
+    {
+        let bad = [
+            "detection:\n  A:\n    process:\n      parent:\n        image: '?(unclosed'\n  condition: A\ntrue_positives: []\ntrue_negatives: []\n",
+            "detection:\n  A:\n    image: '?(unclosed'\n  condition: A\ntrue_positives: []\ntrue_negatives: []\n",
+            "detection:\n  A:\n    a:\n      b:\n        c:\n          d:\n            int(e): x\n  condition: A\ntrue_positives: []\ntrue_negatives: []\n",
+            "detection:\n  A:\n  - x: 1\n  - y:\n      z: !t q\n  condition: A\ntrue_positives: []\ntrue_negatives: []\n",
+            "detection:\n  A:\n    f: x\n  condition: A and\ntrue_positives: []\ntrue_negatives: []\n",
+            "detection:\n  A:\n    f: [x, {k: '?('}]\n  condition: A\ntrue_positives: []\ntrue_negatives: []\n",
+            "detection: [\n",
+            "detection:\n  A:\n    all(f): x\n  condition: B\n",
+        ];
+        let good = [
+            "detection:\n  A:\n    process:\n      image: '*\\cmd.exe'\n      parent:\n        image: '*\\winword.exe'\n  condition: A\ntrue_positives: []\ntrue_negatives: []\n",
+            "detection:\n  A:\n    f: x\n  condition: A\ntrue_positives: []\ntrue_negatives: []\n",
+            "detection:\n  A:\n    a:\n      b:\n        c:\n          d:\n            e:\n              f: x\n  condition: not A\ntrue_positives: []\ntrue_negatives: []\n",
+        ];
+        let observe = |t: &str| -> String {
+            match Rule::from_str(t) {
+                Ok(r) => format!("ok {} | {}", r.detection.expression, r.clone().optimise(implside::opts(15)).detection.expression),
+                Err(_) => "error".to_string(),
+            }
+        };
+        let fresh: Vec<String> = good.iter().map(|g| { let g = g.to_string(); std::thread::spawn(move || match Rule::from_str(&g) { Ok(r) => format!("ok {} | {}", r.detection.expression, r.clone().optimise(crate::implside::opts(15)).detection.expression), Err(_) => "error".to_string() }).join().unwrap_or_default() }).collect();
+        let handle = { let bad: Vec<String> = bad.iter().map(|b| b.to_string()).collect(); let good: Vec<String> = good.iter().map(|g| g.to_string()).collect();
+            std::thread::spawn(move || {
+                let mut out = vec![];
+                for round in 0..50 {
+                    for b in &bad {
+                        let _ = std::panic::catch_unwind(|| Rule::from_str(b).is_ok());
+                    }
+                    if round % 10 == 9 {
+                        for g in &good {
+                            out.push(match Rule::from_str(g) { Ok(r) => format!("ok {} | {}", r.detection.expression, r.clone().optimise(crate::implside::opts(15)).detection.expression), Err(_) => "error".to_string() });
+                        }
+                    }
+                }
+                out
+            }) };
+        let _ = observe;
+        ctx.evaluations += 400;
+        ctx.nontrivial.insert(hash_str("failed-load-history"));
+        match handle.join() {
+            Ok(out) => {
+                for (k, o) in out.iter().enumerate() {
+                    let g = k % good.len();
+                    if *o != fresh[g] {
+                        ctx.violation("oracle", &format!("after {} failed loads on the same thread a rule text loads differently: {} (fresh thread: {})", 8 * 10 * (k / good.len() + 1), trunc(o, 200), trunc(&fresh[g], 200)), &dummy("failed-load-history"), good[g], true);
+                        break;
+                    }
+                }
+            }
+            Err(_) => ctx.violation("oracle", "loading panicked in the failed-load history", &dummy("failed-load-history"), bad[0], true),
+        }
+    }
+    // concurrent evaluation of number-formatting paths
     // concurrent evaluation of number-formatting paths
     let rules = [
         ("detection:\n  A:\n    str(vals): ['1000*', '*0000']\n  condition: of(A, 2)\n", 15u64),
@@ -1519,38 +1680,79 @@ fn c14_text_vs_value(ctx: &mut Ctx) {
         } else {
             text.push_str("true_positives: []\ntrue_negatives:\n- f: bar\n- !t {f: true}\n");
         }
-        ctx.evaluations += 1;
-        ctx.distinct.insert(hash_str(&text));
-        let a = std::panic::catch_unwind(|| Rule::from_str(&text));
-        let value: Yaml = match serde_yaml::from_str(&text) {
-            Ok(v) => v,
-            Err(_) => continue,
-        };
-        let b = std::panic::catch_unwind(|| Rule::from_value(value.clone()));
-        let dummy = Exchange { line: format!("text-vs-value {}", i), imp: String::new(), model: String::new(), agree: true, supported: false };
-        let (a, b) = match (a, b) {
-            (Ok(a), Ok(b)) => (a, b),
-            _ => {
-                ctx.violation("oracle", "loading panicked", &dummy, &text, true);
-                continue;
+        c14_compare_text(ctx, &text, i);
+    }
+}
+
+/// One rule text: `Rule::from_str(text)` and `Rule::from_value(serde_yaml::from_str(text))` must agree.
+fn c14_compare_text(ctx: &mut Ctx, text: &str, i: usize) {
+    let text = text.to_string();
+    ctx.evaluations += 1;
+    ctx.distinct.insert(hash_str(&text));
+    let a = std::panic::catch_unwind(|| Rule::from_str(&text));
+    let value: Yaml = match serde_yaml::from_str(&text) {
+        Ok(v) => v,
+        Err(_) => return,
+    };
+    let b = std::panic::catch_unwind(|| Rule::from_value(value.clone()));
+    let dummy = Exchange { line: format!("text-vs-value {}", i), imp: String::new(), model: String::new(), agree: true, supported: false };
+    let (a, b) = match (a, b) {
+        (Ok(a), Ok(b)) => (a, b),
+        _ => {
+            ctx.violation("oracle", "loading panicked", &dummy, &text, true);
+            return;
+        }
+    };
+    match (&a, &b) {
+        (Ok(x), Ok(y)) => {
+            ctx.nontrivial.insert(hash_str(&text));
+            let sa = format!("{} {}", crate::sx::expr_sx(&x.detection.expression), implside::ids_sx(&x.detection.identifiers));
+            let sb = format!("{} {}", crate::sx::expr_sx(&y.detection.expression), implside::ids_sx(&y.detection.identifiers));
+            if sa != sb {
+                ctx.violation("oracle", &format!("from_str and from_value of the same text build different rules: {}", first_diff(&sa, &sb)), &dummy, &text, true);
+            } else if x.true_positives != y.true_positives || x.true_negatives != y.true_negatives {
+                ctx.violation("oracle", "from_str and from_value of the same text keep different example documents", &dummy, &text, true);
+            } else if x.validate().is_ok() != y.validate().is_ok() {
+                ctx.violation("oracle", "from_str and from_value of the same text disagree in validate()", &dummy, &text, true);
             }
-        };
-        match (&a, &b) {
-            (Ok(x), Ok(y)) => {
-                ctx.nontrivial.insert(hash_str(&text));
-                let sa = format!("{} {}", crate::sx::expr_sx(&x.detection.expression), implside::ids_sx(&x.detection.identifiers));
-                let sb = format!("{} {}", crate::sx::expr_sx(&y.detection.expression), implside::ids_sx(&y.detection.identifiers));
-                if sa != sb {
-                    ctx.violation("oracle", &format!("from_str and from_value of the same text build different rules: {}", first_diff(&sa, &sb)), &dummy, &text, true);
-                } else if x.true_positives != y.true_positives || x.true_negatives != y.true_negatives {
-                    ctx.violation("oracle", "from_str and from_value of the same text keep different example documents", &dummy, &text, true);
-                } else if x.validate().is_ok() != y.validate().is_ok() {
-                    ctx.violation("oracle", "from_str and from_value of the same text disagree in validate()", &dummy, &text, true);
+        }
+        (Err(_), Err(_)) => ctx.stat("text-vs-value-both-reject"),
+        (Ok(_), Err(e)) => ctx.violation("oracle", &format!("the text loads with from_str but its YAML value does not load with from_value: {}", e), &dummy, &text, true),
+        (Err(e), Ok(_)) => ctx.violation("oracle", &format!("the YAML value loads with from_value but the text does not load with from_str: {}", e), &dummy, &text, true),
+    }
+}
+
+/// Hand-written layouts that `serde_yaml::to_string` never produces: block scalars (literal, folded,
+/// with indentation indicators, holding tabs and trailing blanks), CRLF line ends, comments, flow
+/// style, document markers, escapes in double-quoted scalars, a byte-order mark.
+fn c14_layouts(ctx: &mut Ctx) {
+    let head = ["", "---\n", "# a comment\n", "\u{feff}", "%YAML 1.2\n---\n"];
+    let bodies = [
+        "detection:\n  A:\n    cmd: |\n      begin\n      \trun\n  condition: A\ntrue_positives:\n- cmd: |\n    begin\n    \trun\ntrue_negatives: []\n",
+        "detection:\n  A:\n    cmd: |-\n      begin\n      \t\tx\n      \t\n  condition: A\ntrue_positives: []\ntrue_negatives:\n- cmd: \"begin\\n  x\"\n",
+        "detection:\n  A:\n    cmd: >\n      one\n      \ttwo\n\n      three\n  condition: A\ntrue_positives:\n- cmd: \"one\\n\\ttwo\\n\\nthree\\n\"\ntrue_negatives: []\n",
+        "detection:\n  A:\n    cmd: |2\n        indented\n      \ttab\n  condition: A\ntrue_positives: []\ntrue_negatives: []\n",
+        "detection:\n  A:\n    cmd: \"a\\tb\\u00e9\\x41\\\\\"\n  condition: A\ntrue_positives:\n- {cmd: \"a\\tbéA\\\\\"}\ntrue_negatives: []\n",
+        "detection:\n  A:\n    cmd: 'x'   # trailing comment\n    \"k\\tq\": y\n  condition:   A   \ntrue_positives: []\ntrue_negatives: []\n",
+        "detection: {A: {cmd: [a, 'b*', \"?c\"]}, condition: A}\ntrue_positives: [{cmd: a}]\ntrue_negatives: [{cmd: z}]\n",
+        "detection:\n  A:\n    cmd:\n    - |\n      l1\n      \tl2\n    - plain\n  condition: A\ntrue_positives: []\ntrue_negatives: []\n",
+        "detection:\n  A:\n    ? cmd\n    : x\n  condition: >-\n    A\n    or\n    A\ntrue_positives: []\ntrue_negatives: []\n",
+        "detection:\n  A:\n    cmd: x\n  condition: |\n    A\ntrue_positives: []\ntrue_negatives: []\n",
+        "detection:\n\tA:\n\t\tcmd: x\n\tcondition: A\ntrue_positives: []\ntrue_negatives: []\n",
+        "detection:\n  A:\n    cmd: x\n  condition: A\n...\n",
+        "detection:\n  A:\n    cmd: 'it''s'\n    say: \"a \\\"q\\\" b\"\n  condition: A\ntrue_positives:\n- cmd: it's\n  say: 'a \"q\" b'\ntrue_negatives: []\n",
+    ];
+    let mut i = 100000;
+    for h in head {
+        for b in bodies {
+            for crlf in [false, true] {
+                let mut text = format!("{}{}", h, b);
+                if crlf {
+                    text = text.replace('\n', "\r\n");
                 }
+                i += 1;
+                c14_compare_text(ctx, &text, i);
             }
-            (Err(_), Err(_)) => ctx.stat("text-vs-value-both-reject"),
-            (Ok(_), Err(e)) => ctx.violation("oracle", &format!("the text loads with from_str but its YAML value does not load with from_value: {}", e), &dummy, &text, true),
-            (Err(e), Ok(_)) => ctx.violation("oracle", &format!("the YAML value loads with from_value but the text does not load with from_str: {}", e), &dummy, &text, true),
         }
     }
 }
@@ -1601,6 +1803,7 @@ pub fn run_c14(ctx: &mut Ctx, _known: &Known) {
         c14_optimised_vs_reloaded(ctx, known, &name, &c, true, ex.agree && ex.supported);
     }
     c14_text_vs_value(ctx);
+    c14_layouts(ctx);
     let n = budget(ctx, 1200, 30000);
     let tricky = ["*x", "?re", "'01'", "1", "true", "~", "0x1F", "1e3", "a\nb", "a\tb", " lead", "trail ", "- dash", "a: b", "#hash", "\"q\"", "'q'", "i*", "null", "NO", "0o7", "=1", ">=2.5", "{a}", "[a]", "a,b", "&x", "!t", "%p", "@a", "`b"];
     for i in 0..n {
@@ -1820,6 +2023,12 @@ pub fn run_c15(ctx: &mut Ctx, _known: &Known) {
             let ex = Exchange { line: line_ic.clone(), imp: imp_ic.clone(), model: model_ic.clone(), agree: false, supported: true };
             ctx.stat("disagreement");
             ctx.violation("correspondence", &format!("ignore_case build vs model(icFeature): {}", first_diff(&imp_ic, &model_ic)), &ex, &ry, false);
+        }
+        // the default build on R itself first (every other case): what it means there is C07's
+        // business, but whatever the process keeps from it must not leak into the next load
+        if i % 2 == 0 {
+            let (ex0, _) = run_rule_case(ctx, &c, false);
+            ctx.check_agree(&ex0, &ry);
         }
         // the default build on i·R
         let mut c2 = CaseReq { optimised: c.optimised, det: vec![], tps: c.tps.clone(), tns: c.tns.clone(), docs: c.docs.clone(), masks: c.masks.clone() };
